@@ -19,10 +19,38 @@ import Driver.World
 open Lean (Json)
 open Lmd Driver
 
+/-- a cluster of nodes over the backends of the synchronised dataset: every running node's view, its identifier -/
+structure ClusterSt where
+  nNodes : Nat := 0
+  backends : List String := []
+  views : List (Option NodeView) := []
+  idents : List Nat := []
+  nextIdent : Nat := 1
+
+def ClusterSt.replies (c : ClusterSt) (i : Nat) : List PingReply :=
+  (List.range c.nNodes).filterMap fun j =>
+    if j == i then none else
+    match c.views.getD j none with
+    | some v => some { pos := j, ident := c.idents.getD j 0, peers := some v.assigned }
+    | none => none
+
+def ClusterSt.start (c : ClusterSt) (i : Nat) : ClusterSt :=
+  let c := { c with idents := c.idents.set i c.nextIdent, nextIdent := c.nextIdent + 1 }
+  let v : NodeView := { own := i, nNodes := c.nNodes }
+  { c with views := c.views.set i (some (v.check c.backends (c.replies i))) }
+
+def ClusterSt.check (c : ClusterSt) (i : Nat) : ClusterSt :=
+  match c.views.getD i none with
+  | some v => { c with views := c.views.set i (some (v.check c.backends (c.replies i))) }
+  | none => c
+
+def clusterOps : List String := ["cluster", "cstart", "cstop", "ccheck", "cstate", "cquery", "cend"]
+
 structure Full where
   st : State
   ws : Option WState := none
   clock : Int := 0
+  cl : ClusterSt := {}
 
 def worldOps : List String := ["world", "clock", "advance", "init", "tick", "mutate", "mode", "state", "backend_log", "daemon", "reload", "dstate", "sleep"]
 
@@ -222,6 +250,40 @@ partial def loop (h : IO.FS.Stream) (out : IO.FS.Stream) (f : Full) : IO Unit :=
           out.flush
         | none => pure ()
         loop h out { st := st', ws := ws', clock := clock' }
+      else if clusterOps.contains op then
+        let id := jNat j "id"
+        let node := jNat j "node"
+        let reply := fun (r : Json) => do
+          out.putStrLn (Json.compress r)
+          out.flush
+        match op with
+        | "cluster" =>
+          let n := jNat j "nodes"
+          let ids := (jArr j "backends").map (fun b => jStr b "id")
+          let c0 : ClusterSt := { nNodes := n, backends := ids, views := List.replicate n none, idents := List.replicate n 0 }
+          let c := ((jArr j "start").map fun x => match x with | .num m => m.mantissa.toNat | _ => 0).foldl ClusterSt.start c0
+          loop h out { f with cl := c }
+        | "cstart" => loop h out { f with cl := f.cl.start node }
+        | "cstop" => loop h out { f with cl := { f.cl with views := f.cl.views.set node none } }
+        | "ccheck" => loop h out { f with cl := f.cl.check node }
+        | "cstate" =>
+          match f.cl.views.getD node none with
+          | none => reply (Json.mkObj [("id", .num ⟨(id : Int), 0⟩), ("op", .str "cstate"), ("down", .bool true)])
+          | some v =>
+            reply (Json.mkObj [("id", .num ⟨(id : Int), 0⟩), ("op", .str "cstate"), ("state", Json.mkObj [
+              ("own", .num ⟨(v.own : Int), 0⟩),
+              ("online", .arr (v.online.map (fun (x : Nat) => Json.num ⟨(x : Int), 0⟩)).toArray),
+              ("node_backends", Json.mkObj (v.nodeBackends.map fun (k, l) => (toString k, Json.arr (l.map Json.str).toArray))),
+              ("assigned", .arr (v.assigned.map Json.str).toArray)])])
+          loop h out f
+        | "cquery" =>
+          match f.cl.views.getD node none with
+          | none => reply (Json.mkObj [("id", .num ⟨(id : Int), 0⟩), ("op", .str "cquery"), ("parse", .str "unsupported"), ("why", .str "node is down")])
+          | some v =>
+            let shares := (v.nodeBackends.mergeSort (fun a b => a.1 ≤ b.1)).map (·.2)
+            reply (handleQuery f.st j (some (shares, v.assigned)))
+          loop h out f
+        | _ => loop h out f
       else if op == "locks" then
         let id := jNat j "id"
         let base : List (String × Json) := [("id", .num ⟨(id : Int), 0⟩), ("op", .str "locks")]
